@@ -181,7 +181,21 @@ def run(chk):
                         if rc.status != 200 or classify(R.req("GET", path)) != ("write", new):
                             problems.append("the multipart upload cannot be completed after the restart (%d %s)" % (rc.status, rc.code))
                     if versioned and state in ("old", "new") and not direct and opname in ("put-overwrite", "copy", "multipart-overwrite"):
-                        # ---- (b1) the current version, its metadata replaced in place, is archived as it is by the next overwrite
+                        # ---- (b1a) the current version (of which the killed request may have left an archived copy behind), its tags replaced
+                        # in place by PutObjectTagging, is archived with the new tags by the next overwrite
+                        c1_ = classify(R.req("GET", path))
+                        wcur = c1_[1] if c1_[0] == "write" else None
+                        hv0_ = R.req("HEAD", path); cid0_ = hv0_.headers.get("x-amz-version-id")
+                        rt_ = R.req("PUT", path, query={"tagging": ""}, body=b"<Tagging><TagSet><Tag><Key>gen</Key><Value>2</Value></Tag><Tag><Key>second</Key><Value>tag</Value></Tag></TagSet></Tagging>")
+                        nw0_ = 700000 + nb[0]
+                        rp0_ = R.req("PUT", path, body=body_of(nw0_), headers=write_headers(nw0_))
+                        if wcur is not None and rt_.status in (200, 204) and rp0_.status == 200 and cid0_ and cid0_ != "null":
+                            # (GetObjectTagging takes no version id in this gateway: the number of tags of the version is read from GET ?versionId)
+                            gt_ = R.req("GET", path, query={"versionId": cid0_})
+                            if gt_.status != 200 or gt_.body != body_of(wcur) or gt_.headers.get("x-amz-tagging-count") != "2":
+                                problems.append("after the restart the current version had its tags replaced by two tags (PutObjectTagging, acknowledged) and was then overwritten (acknowledged): GET by its id answers %d with %s and x-amz-tagging-count %s" % (
+                                    gt_.status, "its own bytes" if gt_.body == body_of(wcur) else "other bytes", gt_.headers.get("x-amz-tagging-count")))
+                        # ---- (b1) the (now) current version, copied onto itself with new metadata, is a version of its own when the next overwrite archives it
                         c1_ = classify(R.req("GET", path))
                         wcur = c1_[1] if c1_[0] == "write" else None
                         hd_ = dict(write_headers(wcur if wcur is not None else 0)); hd_.update({"x-amz-copy-source": "%s/%s" % (bk, key), "x-amz-metadata-directive": "REPLACE", "x-amz-tagging-directive": "REPLACE", "x-amz-meta-gen": "2"})
